@@ -24,7 +24,7 @@ def nonce(bn, n):
 
 
 # mock AEADs of harness/src/probe.rs: id -> (Nn, Nt).  RFC 9180 5.2: nonce = base_nonce XOR I2OSP(seq, Nn) for any Nn
-MOCK_NN = {0x7777: (12, 16), 0x7778: (24, 32), 0x7779: (8, 16)}
+MOCK_NN = {0x7777: (12, 16), 0x7778: (24, 32), 0x7779: (8, 16), 0x777A: (13, 20)}
 
 BN_PATTERNS = ["000000000000000000000000", "ffffffffffffffffffffffff", "0000000000000000ffffffff",
                "ffffffff0000000000000001", "80000000000000007fffffff"]
@@ -141,6 +141,7 @@ def monitor(sess, extra):
     aead = sess.ids[2]
     models = {}
     pending_failures = [0]
+    pending_panics = [0]
     for op in sess.ops:
         if op.ret is None:
             r.violation("C04:noreturn:%s" % op.op, "%s never returned" % op.id, sess, op)
@@ -161,6 +162,7 @@ def monitor(sess, extra):
             m.refused = False
         elif op.op == "probe_ctl":
             pending_failures[0] = int(op.args.get("fail_seal", "0"))
+            pending_panics[0] = int(op.args.get("panic_seal", "0"))
         elif op.op == "seal" and aead in MOCK_NN:
             m = models[name]
             r.counts["evaluations"] += 1
@@ -169,7 +171,15 @@ def monitor(sess, extra):
                 if op.err() != "MessageLimitReached":
                     r.violation("C04:seal_after_limit:%s" % ("ok" if op.ok() else op.outcome()), "seal on an exhausted context returned %s" % op.outcome(), sess, op)
                 continue
-            if pending_failures[0] > 0:
+            if pending_panics[0] > 0:
+                # a user-supplied AEAD may panic; RFC 9180 5.2: Seal raised, so the sequence number is not incremented
+                pending_panics[0] -= 1
+                if not op.panic():
+                    r.violation("C04:aead_panic_swallowed", "the AEAD panicked but seal returned %s" % op.outcome(), sess, op)
+                    continue
+                r.counts["aead_panics_driven"] += 1
+                r.distinct.add((aead, "aead_panic", op.args["api"]))
+            elif pending_failures[0] > 0:
                 pending_failures[0] -= 1
                 if op.err() != "SealError":
                     r.violation("C04:seal_error_not_reported", "the AEAD failed but seal returned %s" % op.outcome(), sess, op)
@@ -292,7 +302,7 @@ def build_probe(env, reps):
     cw = cl.CaseW()
     for r in range(reps):
         kem = gen.KEMS[r % 4]
-        aead = (0x7777, 0x7778, 0x7779)[(r // 2) % 3]
+        aead = (0x7777, 0x7778, 0x7779, 0x777A)[(r // 2) % 4]
         nn = MOCK_NN[aead][0]
         s = cw.session(kem, [1, 3][r % 2], aead, sid="q%d" % r)
         key, bn = g.raw(32), ((bytes.fromhex(BN_PATTERNS[r % len(BN_PATTERNS)]) * 2)[:nn] if r % 2 else g.raw(nn))
@@ -300,8 +310,11 @@ def build_probe(env, reps):
         for p in (0, 254, (1 << 32) - 2, M64 - 6):
             s.call("set_seq", ctx="S", seq=p)
             for j in range(8):
-                if rnd.random() < 0.4:
+                x = rnd.random()
+                if x < 0.35:
                     s.call("probe_ctl", fail_seal=rnd.choice([1, 1, 2]))
+                elif x < 0.5:
+                    s.call("probe_ctl", panic_seal=1)
                 s.call("seal", ctx="S", api=rnd.choice(["alloc", "inplace"]), pt=g.rbytes(rnd.choice([0, 1, 16, 33])), aad=g.rbytes(rnd.choice([0, 3])))
         s.call("probe_ctl", fail_seal=0)
         # a seal that fails exactly at the last sequence number: the nonce of 2^64-1 has not been used, so the next
@@ -375,7 +388,7 @@ def run(env):
         ftext = build_foreign(env).text()
         foreign = {}
         # (target, cargo features): conjunctions of target and feature set select code too (e.g. a 32-bit no-alloc path)
-        for target, feats in (("i686-unknown-linux-gnu", None), ("s390x-unknown-linux-gnu", None), ("aarch64-unknown-linux-gnu", None),
+        for target, feats in (("i686-unknown-linux-gnu", None), ("s390x-unknown-linux-gnu", None), ("aarch64-unknown-linux-gnu", None), ("powerpc-unknown-linux-gnu", None),
                               ("i686-unknown-linux-gnu", ["x25519"]), ("s390x-unknown-linux-gnu", ["x25519", "std"])):
             text_ = ftext if feats is None or "std" in feats else build_foreign(env, alloc=False).text()
             sessions, note = fw.run_miri(env, "foreign-" + target.split("-")[0] + ("-" + "-".join(feats) if feats else ""), text_, target=target, features=feats)
